@@ -17,12 +17,20 @@
    2. `root_lookup_only`: the parameters are read only through `Mapping.get`.
    3. `missing_top_key`, `missing_nested_key`, `lookup_into_scalar`: the errors of a path that
       does not exist name the reference text and the offending key.
-   4. `whole_ref_path` / `whole_ref_top`: a reference renders to what the value at its path
-      renders to (path text possibly assembled from nested references; path walked through raw
-      mappings).  `whole_ref_final_top`: in the rendered parameters the entry `k: ${k0}` equals
-      the entry `k0`.
+   4. `whole_ref_path` / `whole_ref_top` / `whole_ref_interp`: a reference renders to what the
+      value at its path renders to (path text possibly assembled from nested references; path
+      walked through raw mappings).  `render_entry`: a rendered parameter is the interpolation
+      of the raw one.  `whole_ref_final_path` / `whole_ref_final_top`: in the rendered
+      parameters the entry `k: ${k0:s1:…}` equals what is found at `k0:s1:…` in the output.
    5. `perm_same_lookup`, `order_independence_interp`, `order_independence`: permuting the
       top-level entries permutes the rendered entries and changes nothing else.
+
+  Not proved: the "reference = target" statements for a path that passes through a value that
+  is still a layer list or an unparsed string in the raw parameters (there
+  `interpolate_string_or_valuelist` merges the raw layers before the lookup, while rendering
+  interpolates each layer before merging; relating the two needs a merge/interpolate
+  commutation lemma that is not available).  The value at the *end* of the path may be anything
+  (a string with references, a layer list, …); only the values passed on the way are restricted.
 
   Requested statement that is FALSE of the model as asked:
    * `order_independence` at the *same* fuel (`renderParamsF n root = .ok out →
@@ -361,7 +369,7 @@ theorem whole_ref_final_top {n : Nat} {root out : Mapping} {k : Key} {s k0 : Str
     | none => exact absurd hk0 (lookup_none_iff.1 hl)
     | some v0 => exact ⟨v0, rfl⟩
   obtain ⟨a, b, ha, hb, hab⟩ := whole_ref_final_path (sp := {}) hw h hk hparse
-    (slice_lit 0 root k0 {}) (splitColon_noColon hcolon) hv0 (by simp [rawPath])
+    (slice_lit 0 root k0 {}) (splitColon_noColon hcolon) hv0 (vt := v0) rfl
   refine ⟨a, b, ha, ?_, hab⟩
   simp only [Mapping.toValue, rawPath] at hb
   cases hl : lookup (.str k0) out.es with
@@ -602,6 +610,31 @@ example : (tokRender 20 demoNested (.ref [.ref [.lit "c".toList], .lit ":x".toLi
 
 example : C07.renderJson 50 demoNested = some "{\"a\":1,\"b\":{\"x\":1},\"c\":\"b\"}".toList := by
   decide +kernel
+
+/-- `a` refers to the number at `b:x`. -/
+def demoPath : Mapping :=
+  ⟨[(.str "a".toList, .str "${b:x}".toList),
+    (.str "b".toList, .map [(.str "x".toList, .num (.int 1))] [] [])], [], []⟩
+
+theorem demoPath_wf : WF demoPath.toValue := by
+  simp only [demoPath, Mapping.toValue, WF, WFEs, keys]
+  exact ⟨⟨by decide, trivial, by decide, ⟨⟨by decide, trivial, trivial⟩, by decide⟩, trivial⟩, by decide⟩
+
+theorem demoPath_render : renderParamsF 12 demoPath =
+    .ok ⟨[(.str "a".toList, .num (.int 1)),
+          (.str "b".toList, .map [(.str "x".toList, .num (.int 1))] [] [])], [], []⟩ := by rfl
+
+/-- All hypotheses of `whole_ref_final_path` hold for `demoPath`. -/
+example : ∃ a b, lookup (.str "a".toList)
+      [(.str "a".toList, .num (.int 1)),
+       (.str "b".toList, .map [(.str "x".toList, .num (.int 1))] [] [])] = some a ∧
+    rawPath (Mapping.toValue ⟨[(.str "a".toList, .num (.int 1)),
+       (.str "b".toList, .map [(.str "x".toList, .num (.int 1))] [] [])], [], []⟩)
+       ["b".toList, "x".toList] = some b ∧
+    erase a = erase b :=
+  whole_ref_final_path (k := .str "a".toList) (s := "${b:x}".toList) (j := 5) (sp := {})
+    (path := "b:x".toList) (vt := .num (.int 1))
+    demoPath_wf demoPath_render (by simp [demoPath]) (by rfl) (by rfl) (by rfl) (by rfl) (by rfl)
 
 /-- A path that does not exist: the error names the reference text, the missing key and the
 parameter being rendered. -/
